@@ -1,6 +1,7 @@
 package hcv
 
 import (
+	"go/token"
 	"fmt"
 	"go/constant"
 	"sort"
@@ -173,6 +174,44 @@ func (c *Ctx) strippedCopy(m ssa.Value, dir string, before ssa.Instruction) stri
 	}
 	if !fresh {
 		return "not a private copy"
+	}
+	if mk, ok := m.(*ssa.MakeMap); ok && c.filteredCopySource(mk) != nil {
+		// a copy filled pair by pair from a range over another map: dir is left out when every copying step is
+		// reached only with a key known to differ from dir
+		why := ""
+		for _, r := range *mk.Referrers() {
+			mu, ok := r.(*ssa.MapUpdate)
+			if !ok || mu.Map != m {
+				if call, ok := r.(*ssa.Call); ok && call != before && instrDominates(call, before) {
+					if _, isB := call.Call.Value.(*ssa.Builtin); !isB {
+						why = "the copy is handed to " + call.String() + " before the call"
+					}
+				}
+				continue
+			}
+			excluded := false
+			for _, dc := range dominatingConds(mu.Block()) {
+				for _, lf := range condLeaves(dc.cond, dc.onTrue) {
+					bo, ok := lf.v.(*ssa.BinOp)
+					if !ok {
+						continue
+					}
+					for _, side := range [][2]ssa.Value{{bo.X, bo.Y}, {bo.Y, bo.X}} {
+						k, isK := constStr(side[1])
+						if !isK || k != dir || side[0] != mu.Key {
+							continue
+						}
+						if (bo.Op == token.NEQ && lf.val) || (bo.Op == token.EQL && !lf.val) {
+							excluded = true
+						}
+					}
+				}
+			}
+			if !excluded {
+				why = "the copying step at " + c.P.InstrPos(mu) + " is not confined to keys other than " + dir
+			}
+		}
+		return why
 	}
 	refs := m.Referrers()
 	if refs == nil {
